@@ -48,6 +48,11 @@ func (r *c08Rec) fails(fn, kind, msg string) {
 	r.t.Emit(tr.Rec{"ev": "returned", "fn": fn, "kind": kind, "vals": fmtx.Abs([]interface{}{}), "msg": msg})
 }
 
+// c08Err: a concrete error type - a function may declare it instead of `error` as its last result
+type c08Err struct{ Msg string }
+
+func (e *c08Err) Error() string { return e.Msg }
+
 type c08NS struct{ r *c08Rec }
 
 func (n *c08NS) Mul(a, b int) int {
@@ -90,6 +95,24 @@ func c08Service(r *c08Rec) (*core.Service, map[string]string) {
 		r.values("failres", x*2)
 		return x * 2, nil
 	}, "failres")
+	pub(func(x int) (int, *c08Err) {
+		r.invoked("cerr", x)
+		if x < 0 {
+			r.fails("cerr", "error", "concrete negative")
+			return 0, &c08Err{"concrete negative"}
+		}
+		r.values("cerr", x*3)
+		return x * 3, nil
+	}, "cerr")
+	pub(func(x int) *c08Err {
+		r.invoked("cerronly", x)
+		if x < 0 {
+			r.fails("cerronly", "error", "only negative")
+			return &c08Err{"only negative"}
+		}
+		r.values("cerronly")
+		return nil
+	}, "cerronly")
 	pub(func(v interface{}) { r.invoked("boom", v); r.fails("boom", "panic", fmt.Sprint(v)); panic(v) }, "boom")
 	pub(func(msg string) { r.invoked("boomerr", msg); r.fails("boomerr", "panic", msg); panic(errors.New(msg)) }, "boomerr")
 	pub(func(p gen.Plain) gen.Plain { r.invoked("plain", p); p.A++; r.values("plain", p); return p }, "plain")
@@ -290,6 +313,10 @@ func c08Run(t *tr.Writer, id int, c c08Case) {
 	raw("fail", "ошибка")
 	raw("failres", 3)
 	raw("failres", -3)
+	raw("cerr", 3)
+	raw("cerr", -3)
+	raw("cerronly", 1)
+	raw("CErrOnly", -1)
 	raw("boom", "kaboom")
 	raw("boom", 42)
 	raw("boomerr", "err-in-panic")
@@ -400,6 +427,20 @@ func c08Dynamic(t *tr.Writer, id int, c c08Case) {
 		}
 	}
 	names := []string{"alpha", "Alpha", "ALPHA", "beta", "ns_Gamma", "ns_gamma", "δelta", "Δelta"}
+	call := func(name string, step int) {
+		arg := fmt.Sprintf("x%d", step)
+		args := []interface{}{arg}
+		t.Emit(tr.Rec{"ev": "call", "name": name, "lname": strings.ToLower(name), "args": fmtx.Abs(args), "margs": fmtx.Abs([]interface{}{name, args})})
+		res, err := client.Invoke(name, args)
+		if err != nil {
+			t.Emit(tr.Rec{"ev": "ret", "kind": "error", "msg": err.Error(), "vals": fmtx.Abs([]interface{}{}), "raw": true})
+		} else {
+			if res == nil {
+				res = []interface{}{}
+			}
+			t.Emit(tr.Rec{"ev": "ret", "kind": "values", "msg": "", "vals": fmtx.Abs(res), "raw": true})
+		}
+	}
 	nfn := 0
 	for step := 0; step < c.Call; step++ {
 		switch k := rng.Intn(10); {
@@ -413,6 +454,8 @@ func c08Dynamic(t *tr.Writer, id int, c c08Case) {
 			name := names[rng.Intn(len(names))]
 			svc.Remove(name)
 			t.Emit(tr.Rec{"ev": "unpublish", "lname": strings.ToLower(name)})
+			// what was removed is gone at once, in every spelling
+			call([]string{name, strings.ToLower(name), strings.ToUpper(name)}[rng.Intn(3)], step)
 		case k < 5:
 			if rng.Intn(2) == 0 {
 				svc.AddMissingMethod(func(name string, args []interface{}) ([]interface{}, error) {
@@ -433,18 +476,7 @@ func c08Dynamic(t *tr.Writer, id int, c c08Case) {
 			case 1:
 				name = strings.ToLower(name)
 			}
-			arg := fmt.Sprintf("x%d", step)
-			args := []interface{}{arg}
-			t.Emit(tr.Rec{"ev": "call", "name": name, "lname": strings.ToLower(name), "args": fmtx.Abs(args), "margs": fmtx.Abs([]interface{}{name, args})})
-			res, err := client.Invoke(name, args)
-			if err != nil {
-				t.Emit(tr.Rec{"ev": "ret", "kind": "error", "msg": err.Error(), "vals": fmtx.Abs([]interface{}{}), "raw": true})
-			} else {
-				if res == nil {
-					res = []interface{}{}
-				}
-				t.Emit(tr.Rec{"ev": "ret", "kind": "values", "msg": "", "vals": fmtx.Abs(res), "raw": true})
-			}
+			call(name, step)
 		}
 	}
 }
